@@ -40,7 +40,7 @@ namespace sqf
                 shape mshape;
 
             public:
-                marker();
+                marker() : msize{ 1, 1 }, mpos{ 0, 0, 0 }, malpha(1), mdirection(0), mshape(shape::Icon) {}
 
                 std::string get_text() const { return mtext; };
                 void set_text(std::string val) { mtext = val; };
